@@ -498,6 +498,14 @@ func (cl *cluster) enabled() []string {
 					out = append(out, fmt.Sprintf("Verify:%d", i))
 				}
 			}
+		case "VerifyF":
+			for i, m := range attached {
+				if be := cl.attachedBE(i); m == "WO" && be != nil && cl.synced[be.seq] && faultsLeft(1) {
+					for _, a := range []string{"setrevisioncounter", "setreplicamode", "GET"} {
+						out = append(out, fmt.Sprintf("VerifyF:%d:%s", i, a))
+					}
+				}
+			}
 		case "VerifyEarly":
 			for i, m := range attached {
 				if be := cl.attachedBE(i); m == "WO" && be != nil && !cl.synced[be.seq] {
